@@ -14,6 +14,11 @@ CHECKS = {
  "C05": ("fam-cw3", "explicit-state BFS with fault injection (failing receiver) and re-entrant proposals in the kernel; dispatch-trace oracle (at most once, as proposed, only while Passed, authorised) and status automaton", "5 C05"),
  "C06": ("fam-cw3", "explicit-state BFS placing group updates before/in/after the proposal block; block-start snapshot reference vs ballots and totals", "5 C06"),
  "C15": ("fam-cw3", "explicit-state BFS over deposit histories with real bank/cw20 balances vs deposit ledger; bounded exhaustive reachability search (EF) for recoverability of failed deposits", "5 C15"),
+ "C07": ("fam-cw1", "explicit-state BFS over the grant machine of cw1-whitelist / cw1-subkeys to fixpoint with Execute probes of every message kind and ordered pair by every caller class at every state; independent covered() predicate and message-equality oracle", "5 C07"),
+ "C08": ("fam-cw1", "explicit-state BFS over allowance grant/decrease/spend/advance histories to fixpoint; reference allowance ledger compared through queries after every step; cumulative monitor in depth-bounded configs", "5 C08"),
+ "C16": ("fam-cw1", "at every reachable state x sender class x message: CanExecute query compared with Execute on a copy of the state (exhaustive BFS over states)", "5 C16"),
+ "C17": ("fam-cw1", "explicit-state BFS over admin/freeze/grant histories to fixpoint; reference {admins, mutable}", "5 C17"),
+ "C20": ("fam-paging", "exhaustive sweep of the pager state machine (listing x store size x limit x cursor) over stores built through the real entry points; expected pages derived from point queries", "5 C20"),
 }
 TODO = {}
 props = [json.loads(l) for l in open('/verif/properties.jsonl')]
@@ -39,12 +44,16 @@ for p in props:
         na.append({"property_id": i, "reason": TODO.get(i, "check not built yet in this round (designed in DESIGN.md §5); not claimed until its explorer exists")})
 m = {
  "version": 1,
- "setup_cmd": "cd /verif/harness && CARGO_NET_OFFLINE=true cargo build --release --offline " + " ".join("-p " + e for e in sorted(set(c[0] for c in CHECKS.values()))),
+ "setup_cmd": "cd /verif/harness && CARGO_NET_OFFLINE=true cargo build --release --offline " + " ".join("-p " + e for e in sorted(set(c[0] for c in CHECKS.values()))) + " -p kernel-diff && cd /verif && (./check kernel-diff --tier quick || echo 'kernel-diff did not pass: see its output; family checks still run')",
  "hooks": {"guard": "cwplus_verif", "enable": "none needed: all observation points are public entry points; the guard name is reserved and unused",
            "baseline_off_cmd": "cd /repo && cargo test --workspace --no-fail-fast --offline", "source_commits": [], "add_only": True},
  "engines": [
    {"name": "mc", "path": "/verif/harness/mc", "serves_properties": [c["property_id"] for c in checks], "kind_free_text": "deterministic cloneable mini-chain kernel + level-synchronous parallel BFS explorer + evidence/replay/known-finding reporting"},
    {"name": "fam-cw20", "path": "/verif/harness/fam-cw20", "serves_properties": ["C01","C02","C13","C19"], "kind_free_text": "cw20-base alphabets, reference ledger and oracles"},
+   {"name": "fam-cw1", "path": "/verif/harness/fam-cw1", "serves_properties": ["C07","C08","C16","C17"], "kind_free_text": "cw1-whitelist / cw1-subkeys grant machine, probes, reference ledger"},
+   {"name": "fam-paging", "path": "/verif/harness/fam-paging", "serves_properties": ["C20"], "kind_free_text": "pager state machine sweep over all 21 list queries"},
+   {"name": "kernel-diff", "path": "/verif/harness/kernel-diff", "serves_properties": [], "kind_free_text": "conformance of the kernel to cw-multi-test 2.0.0: exhaustive differential replay of all action sequences up to a depth in 8 scenarios (./check kernel-diff); exit 2 on disagreement"},
+   {"name": "sr-cross", "path": "/verif/harness/sr-cross", "serves_properties": [], "kind_free_text": "engine cross-validation: the same models explored with stateright 0.31 BFS; unique-state counts and verdicts must agree with mc::bfs (cargo run -p sr-cross)"},
    {"name": "fam-cw3", "path": "/verif/harness/fam-cw3", "serves_properties": ["C03","C04","C05","C06","C15"], "kind_free_text": "cw3-fixed/cw3-flex(+cw4-group, cw20-base, sink) alphabets, exact threshold spec, tally-lattice DP, dispatch and deposit oracles"},
  ],
  "checks": checks,
